@@ -982,6 +982,8 @@ def np_method(I, obj, name):
         return (obj.n,)
     if name == 'ndim':
         return 1
+    if name == 'dtype':
+        return _DType({'int': 'intp', 'real': 'float64', 'bool': 'bool'}.get(obj.kind, 'object'))
     if name == 'size':
         return obj.n
     if name == 'astype':
@@ -1026,6 +1028,13 @@ def np_empty(I, shape, dtype=None, **kw):
     return r
 
 
+def np_empty_like(I, a, dtype=None, **kw):
+    if not isinstance(a, SArr):
+        raise Unsupported('np.empty_like of ' + type(a).__name__)
+    I.trusted.add('np.empty/zeros 1-D')
+    return SArr.fresh(a.kind, 'empty', np=True, n=a.n)
+
+
 def np_zeros(I, shape, dtype=None, **kw):
     r = np_empty(I, shape, dtype)
     zero = z3.BoolVal(False) if r.kind == 'bool' else to_z3(0, kind_sort(r.kind))
@@ -1050,7 +1059,7 @@ def module_model(name):
         return ModuleVal('numpy', {
             'asarray': Builtin(np_asarray, 'np.asarray'), 'array': Builtin(np_array, 'np.array'),
             'empty': Builtin(np_empty, 'np.empty'), 'zeros': Builtin(np_zeros, 'np.zeros'),
-            'arange': Builtin(np_arange, 'np.arange'),
+            'arange': Builtin(np_arange, 'np.arange'), 'empty_like': Builtin(np_empty_like, 'np.empty_like'),
             'any': Builtin(np_any, 'np.any'), 'all': Builtin(np_all, 'np.all'),
             'sum': Builtin(lambda I, a, **k: _sum(I, a), 'np.sum'),
             'intp': _DType('intp'), 'int64': _DType('int64'), 'float64': _DType('float64'), 'bool_': _DType('bool'),
